@@ -21,7 +21,7 @@ class FitRecorder:
         stmod.curve_fit = self.inner
 
     def __call__(self, f, xdata, ydata, **kw):
-        self.calls.append((np.array(xdata, float), np.array(ydata, float), kw))
+        self.calls.append((np.array(xdata, float), np.array(ydata, float), dict(kw, _f=f)))
         return self.inner(f, xdata, ydata, **kw)
 
 
@@ -66,6 +66,21 @@ def check_fit(ctx, model, case, V, rec, label=''):
             return False
     elif mname == 'product_sum':
         ctx.problem('correspondence', 'no least-squares call recorded for the product-sum model', case, None)
+    if rec.calls and mname == 'product_sum' and rec.calls[-1][2].get('_f') is not None:
+        # the function handed to the optimiser IS the documented combination of the two marginal models, at every sample lag
+        xd, yd, kwc = rec.calls[-1]
+        fobj = kwc['_f']
+        try:
+            for kk in ([0.7, 0.3, 0.2], [0.0, 1.0, 1.0], [1.5, 0.0, 0.4]):
+                gotf = np.asarray(fobj(xd, *kk), float).ravel()          # xdata is the (N, 2) table of (space lag, time lag)
+                lagsf = xd
+                wantf = [documented('product_sum', Vx, Vt, a_, b_, kk, par) for a_, b_ in np.asarray(lagsf, float).tolist()]
+                if len(gotf) != len(wantf) or not all(gen.close(g_, w_, 1e-9, 1e-12) for g_, w_ in zip(gotf, wantf)):
+                    ctx.problem('oracle', 'the model function handed to the least-squares fit is not the documented product-sum combination of the marginal models at the sample lags%s' % label, case,
+                                {'k': kk, 'function': gotf.tolist()[:6], 'documented': wantf[:6], 'lags': np.asarray(lagsf, float).tolist()[:6]}, {'what': 'fit-function'})
+                    break
+        except Exception as e:
+            ctx.count('fit_function_rejected', type(e).__name__ + ':' + str(e)[:40])
     wl = [[float(a), float(b), float(c)] for a, b, c in want]
     # local optimality (product-sum is linear in k1,k2,k3: the bounded optimum is computable) - a TEST, not a theorem
     if mname == 'product_sum' and len(cof) == 3 and len(wl) >= 3:
@@ -73,7 +88,8 @@ def check_fit(ctx, model, case, V, rec, label=''):
         gt = np.array([float(Vt(b)) for _, b, _ in wl])
         y = np.array([c for _, _, c in wl])
         A = np.column_stack((par['Ct'] * gx + par['Cx'] * gt - gx * gt, gx, gt))
-        if np.linalg.cond(A) > 1e8:
+        # collinearity is judged on the column-equilibrated design (the three columns differ in scale by the marginal sills)
+        if np.linalg.cond(A / np.maximum(np.linalg.norm(A, axis=0), 1e-300)) > 1e8:
             ctx.count('degenerate_design_skipped')          # collinear columns (e.g. a single space lag): the optimum is not unique / at infinity
             return True
         opt = lsq_linear(A, y, bounds=(0, np.inf))
